@@ -100,7 +100,7 @@ func requestStruct(iface *types.Named, method string) (*types.Named, *types.Stru
 }
 
 type cliCmd struct {
-	lit      *ast.CompositeLit
+	where    string
 	service  string // "Query" | "Tx" | ""
 	method   string
 	use      string
@@ -115,7 +115,7 @@ type cliCmd struct {
 type cliArg struct {
 	field             string
 	optional, varargs bool
-	pos               token.Pos
+	where             string
 }
 
 var placeholderRe = regexp.MustCompile(`[\[<]([^\]>]+)[\]>]`)
@@ -131,179 +131,32 @@ func checkC20(w *World, r *Report) {
 	r.Rule("CFG-START", "the default node configuration passes the server's start-up validation", 1)
 	r.Rule("PROTO-AMINO", "amino JSON encoding options fit the field they annotate (responses can be rendered)", 12)
 
-	mod := w.Repo[modulePath]
-	info := mod.TypesInfo
-
 	// locate AutoCLIOptions by signature: method returning *autocliv1.ModuleOptions
-	var decl *ast.FuncDecl
-	for _, f := range mod.Syntax {
-		for _, d := range f.Decls {
-			fd, ok := d.(*ast.FuncDecl)
-			if !ok || fd.Recv == nil || fd.Body == nil {
-				continue
+	tm := NewTerms(w)
+	var optsFn *ssa.Function
+	for _, fn := range w.Funcs {
+		if p := pkgOf(fn); p == nil || p.Path() != modulePath || fn.Parent() != nil || fn.Signature.Recv() == nil {
+			continue
+		}
+		sig := fn.Signature
+		if sig.Params().Len() == 0 && sig.Results().Len() == 1 && isNamed(sig.Results().At(0).Type(), autocliAPIPath, "ModuleOptions") {
+			if optsFn != nil {
+				fatalf("two methods returning *autocliv1.ModuleOptions in %s", modulePath)
 			}
-			obj, _ := info.Defs[fd.Name].(*types.Func)
-			if obj == nil {
-				continue
-			}
-			sig := obj.Type().(*types.Signature)
-			if sig.Params().Len() == 0 && sig.Results().Len() == 1 && isNamed(sig.Results().At(0).Type(), autocliAPIPath, "ModuleOptions") {
-				if decl != nil {
-					fatalf("two methods returning *autocliv1.ModuleOptions in %s", modulePath)
-				}
-				decl = fd
-			}
+			optsFn = fn
 		}
 	}
-	if decl == nil {
+	if optsFn == nil {
 		r.Fail("CLI-BIND", "AutoCLIOptions", modulePath, "the module provides autocli options", "no method returning *autocliv1.ModuleOptions found in the module package: the binary registers no command for the module")
 		return
 	}
-
-	var cmds []*cliCmd
-	fieldOfKV := func(kv *ast.KeyValueExpr) string {
-		if id, ok := kv.Key.(*ast.Ident); ok {
-			return id.Name
-		}
-		return ""
-	}
-	serviceFromStack := func(stack []ast.Node) (string, bool) {
-		// innermost KeyValue with key Query/Tx whose enclosing literal is ModuleOptions
-		for i := len(stack) - 1; i >= 0; i-- {
-			switch n := stack[i].(type) {
-			case *ast.KeyValueExpr:
-				k := fieldOfKV(n)
-				if (k == "Query" || k == "Tx") && i > 0 {
-					if cl, ok := stack[i-1].(*ast.CompositeLit); ok && isNamed(info.TypeOf(cl), autocliAPIPath, "ModuleOptions") {
-						return k, false
-					}
-				}
-			case *ast.CallExpr:
-				// append(x.Tx.RpcCommandOptions, ...)
-				if id, ok := n.Fun.(*ast.Ident); ok && id.Name == "append" && len(n.Args) > 0 {
-					svc := ""
-					ast.Inspect(n.Args[0], func(m ast.Node) bool {
-						if se, ok := m.(*ast.SelectorExpr); ok {
-							if (se.Sel.Name == "Tx" || se.Sel.Name == "Query") && isNamed(info.TypeOf(se.X), autocliAPIPath, "ModuleOptions") {
-								svc = se.Sel.Name
-							}
-						}
-						return true
-					})
-					if svc != "" {
-						return svc, true
-					}
-				}
-			}
-		}
-		return "", false
-	}
-	walkStack(decl.Body, func(n ast.Node, stack []ast.Node) bool {
-		cl, ok := n.(*ast.CompositeLit)
-		if !ok || !isNamed(info.TypeOf(cl), autocliAPIPath, "RpcCommandOptions") {
-			return true
-		}
-		c := &cliCmd{lit: cl}
-		c.service, c.cond = serviceFromStack(stack)
-		for _, el := range cl.Elts {
-			kv, ok := el.(*ast.KeyValueExpr)
-			if !ok {
-				continue
-			}
-			switch fieldOfKV(kv) {
-			case "RpcMethod":
-				if s, ok := constString(info, kv.Value); ok {
-					c.method = s
-				} else {
-					c.nonConst = append(c.nonConst, "RpcMethod")
-				}
-			case "Use":
-				if s, ok := constString(info, kv.Value); ok {
-					c.use = s
-				} else {
-					c.nonConst = append(c.nonConst, "Use")
-				}
-			case "Alias":
-				if al, ok := kv.Value.(*ast.CompositeLit); ok {
-					for _, ae := range al.Elts {
-						if s, ok := constString(info, ae); ok {
-							c.aliases = append(c.aliases, s)
-						} else {
-							c.nonConst = append(c.nonConst, "Alias")
-						}
-					}
-				} else {
-					c.nonConst = append(c.nonConst, "Alias")
-				}
-			case "Skip":
-				if b, ok := constBool(info, kv.Value); ok {
-					c.skip = b
-				} else {
-					c.nonConst = append(c.nonConst, "Skip")
-				}
-			case "PositionalArgs":
-				pl, ok := kv.Value.(*ast.CompositeLit)
-				if !ok {
-					c.nonConst = append(c.nonConst, "PositionalArgs")
-					continue
-				}
-				for _, pe := range pl.Elts {
-					al, ok := pe.(*ast.CompositeLit)
-					if ue, isU := pe.(*ast.UnaryExpr); isU {
-						al, ok = ue.X.(*ast.CompositeLit)
-					}
-					if !ok {
-						c.nonConst = append(c.nonConst, "PositionalArgs element")
-						continue
-					}
-					a := cliArg{pos: al.Pos()}
-					for _, ae := range al.Elts {
-						akv, ok := ae.(*ast.KeyValueExpr)
-						if !ok {
-							continue
-						}
-						switch fieldOfKV(akv) {
-						case "ProtoField":
-							if s, ok := constString(info, akv.Value); ok {
-								a.field = s
-							} else {
-								c.nonConst = append(c.nonConst, "ProtoField")
-							}
-						case "Optional":
-							a.optional, _ = constBool(info, akv.Value)
-						case "Varargs":
-							a.varargs, _ = constBool(info, akv.Value)
-						}
-					}
-					c.posArgs = append(c.posArgs, a)
-				}
-			case "FlagOptions":
-				fl, ok := kv.Value.(*ast.CompositeLit)
-				if !ok {
-					c.nonConst = append(c.nonConst, "FlagOptions")
-					continue
-				}
-				for _, fe := range fl.Elts {
-					fkv, ok := fe.(*ast.KeyValueExpr)
-					if !ok {
-						continue
-					}
-					if s, ok := constString(info, fkv.Key); ok {
-						c.flagKeys = append(c.flagKeys, s)
-					} else {
-						c.nonConst = append(c.nonConst, "FlagOptions key")
-					}
-				}
-			}
-		}
-		cmds = append(cmds, c)
-		return true
-	})
+	declWhere := w.pos(optsFn.Pos())
+	cmds := cliCommands(w, tm, optsFn)
 
 	svcIface := map[string]*types.Named{"Query": w.QueryServer, "Tx": w.MsgServer}
 	listed := map[string]map[string]*cliCmd{"Query": {}, "Tx": {}}
 	for _, c := range cmds {
-		where := w.pos(c.lit.Pos())
+		where := c.where
 		name := c.service + "." + c.method
 		if c.service == "" {
 			r.Fail("CLI-BIND", "cmd:"+c.method+":service", where, "command options are attached to the Query or the Tx service descriptor",
@@ -335,7 +188,7 @@ func checkC20(w *World, r *Report) {
 		seen := map[string]bool{}
 		for i, a := range c.posArgs {
 			key := fmt.Sprintf("cmd:%s:pos%d", name, i)
-			awhere := w.pos(a.pos)
+			awhere := a.where
 			what := fmt.Sprintf("positional %d of %s binds proto field %q of %s", i, c.method, a.field, reqN.Obj().Name())
 			switch {
 			case !has[a.field]:
@@ -385,9 +238,9 @@ func checkC20(w *World, r *Report) {
 		for _, m := range methodsOf(svcIface[svc]) {
 			c := listed[svc][m]
 			key := "method:" + svc + "." + m
-			where := w.pos(decl.Pos())
+			where := declWhere
 			if c != nil {
-				where = w.pos(c.lit.Pos())
+				where = c.where
 			}
 			switch {
 			case c != nil && c.skip && m != "UpdateParams":
@@ -433,7 +286,7 @@ func checkC20(w *World, r *Report) {
 				bad = append(bad, fmt.Sprintf("%q names %s", k, strings.Join(owner[k], " and ")))
 			}
 		}
-		r.Check(len(bad) == 0, "CLI-UNIQUE", "service:"+svc, w.pos(decl.Pos()), fmt.Sprintf("the %d command names and aliases of the %s service are pairwise distinct", len(owner), svc),
+		r.Check(len(bad) == 0, "CLI-UNIQUE", "service:"+svc, declWhere, fmt.Sprintf("the %d command names and aliases of the %s service are pairwise distinct", len(owner), svc),
 			strings.Join(bad, "; ")+": typing that name reaches only the first of them, the other method is unreachable under it (or a different request is sent than the help says)")
 	}
 
